@@ -603,11 +603,10 @@ bitmap – so the NULL markers – and the new-params-bound flag are byte-identi
 parameter (same parameter count) and the encodings of the non-NULL values; the header gets the new payload length
 and keeps the sequence id.
 
-Missing for the full statement (`rewriteExecute` of a specification-encoded packet = the specification encoding of
-the transformed parameter list): the induction that assembles `rewrite_wellformed_mysql_execute_value` over the
-value loop with the NULL bitmap; it is covered by correspondence (`C12.my.execute`, `C12.my.execute.params`) and the
-direct oracle. The full statement is moreover FALSE for the unsigned flag of LONG/LONGLONG parameters – see
-`execute_sign_flag_counterexample` (known finding `my-execute-sign-flag`). -/
+The full statement (`rewriteExecute` of a specification-encoded packet = the specification encoding of the transformed
+parameter list) is `rewrite_wellformed_mysql_execute` below; it needs the hypothesis `SignFlagsCanonical` because it is
+FALSE for the unsigned flag of LONG/LONGLONG parameters – see `execute_sign_flag_counterexample` (known finding
+`my-execute-sign-flag`). This frame statement holds for ANY packet and value list `SetParameters` accepts. -/
 theorem rewrite_wellformed_mysql_execute_partial (fo : FloatOps) (p p' : Packet) (vs : List BoundValue) (hne : vs ≠ [])
     (h : setParameters fo p vs = .ok p') :
     ∃ types vals, p'.data = p.data.take (hdrLen + ((vs.length + 7) >>> 3) + 1) ++ types ++ vals ∧
@@ -666,6 +665,52 @@ theorem execute_params_roundtrip (fo : FloatOps) (head : Bytes) (types : List (N
           subst h1; subst h2
           rfl
         | succ j => simpa [boundAll] using ih ts (by simpa using hl) j t f x (by simpa using h1) (by simpa using h2)
+
+open AcraModel.Wire.My in
+/-- **Rewritten COM_STMT_EXECUTE stays well-formed – whole packet.** For every COM_STMT_EXECUTE payload the specification
+encoder writes (`encodeExecute head types vals`: `n ≥ 1` parameters, every wire value well-formed for its type) and every
+observer that maps the TEXT value of parameter `i` to `f i text`, `GetBindParameters → OnBind → SetParameters` yields the
+packet whose payload is EXACTLY the specification encoding of the rewritten parameter list, with the new payload length
+in the header and the sequence id kept:
+* the 10-byte head, the parameter count, the NULL bitmap and the new-params-bound flag are the ones received (NULL
+  parameters stay NULL, no other parameter becomes NULL);
+* a parameter the observer does not change keeps its type, its unsigned flag and its value bytes – integers and floats
+  bit-identical after the round trip through decimal text;
+* a parameter the observer changes travels as a BLOB (type 252, flag kept) holding the length-encoded new text.
+Hypotheses beyond well-formedness: `FloatLaw` (strconv's shortest-text round trip for the FLOAT/DOUBLE values present:
+all finite values and infinities) and `SignFlagsCanonical` – the complement of the input class of the known finding
+`my-execute-sign-flag`, for which the statement is false (`execute_sign_flag_counterexample`). -/
+theorem rewrite_wellformed_mysql_execute (fo : FloatOps) (f : Nat → Bytes → Bytes) (g : Nat → Bytes → Out Bytes)
+    (hg : ∀ i d, g i d = .ok (f i d)) (h head : Bytes) (types : List (Nat × Nat)) (vals : List (Option Bytes))
+    (hh : head.length = 10) (hl : types.length = vals.length) (hn : 0 < vals.length)
+    (hty : ∀ tf ∈ types, tf.1 < 256 ∧ tf.2 < 256)
+    (hw : ∀ (j t fl : Nat) (v : Bytes), types[j]? = some (t, fl) → vals[j]? = some (some v) → WireOk t v)
+    (hlaw : FloatLaw fo types vals) (hsf : SignFlagsCanonical types vals) :
+    ∃ p', rewriteExecute fo g ⟨h, encodeExecute head types vals⟩ vals.length = .ok (some p') ∧
+      p'.data = encodeExecute head (outTypes fo f 0 types vals) (outVals fo f 0 types vals) ∧
+      p'.header = updatePacketSize h p'.data.length ∧
+      (outTypes fo f 0 types vals).length = vals.length ∧ (outVals fo f 0 types vals).length = vals.length ∧
+      (∀ j : Nat, (outVals fo f 0 types vals)[j]? = some none ↔ vals[j]? = some none) ∧
+      (∀ (j t fl : Nat) (v : Option Bytes), types[j]? = some (t, fl) → vals[j]? = some v →
+        (changedAt fo f j t v = false →
+          (outTypes fo f 0 types vals)[j]? = some (t, fl) ∧ (outVals fo f 0 types vals)[j]? = some v) ∧
+        (changedAt fo f j t v = true →
+          (outTypes fo f 0 types vals)[j]? = some (changedType, fl) ∧
+          (outVals fo f 0 types vals)[j]? = some ((boundOf fo t v).data.map (f j)))) := by
+  refine ⟨_, rewriteExecute_encodeExecute fo f g hg h head types vals hh hl hn hty hw hlaw hsf, rfl, rfl,
+    outTypes_length fo f 0 types vals hl, outVals_length fo f 0 types vals hl,
+    fun j => outVals_none_iff fo f 0 types vals hl j, ?_⟩
+  intro j t fl v h1 h2
+  have ht := outTypes_getElem? fo f 0 types vals j t fl v h1 h2
+  have hv := outVals_getElem? fo f 0 types vals j t fl v h1 h2
+  rw [Nat.zero_add] at ht hv
+  constructor
+  · intro hc
+    rw [hc] at ht hv
+    exact ⟨ht, hv⟩
+  · intro hc
+    rw [hc] at ht hv
+    exact ⟨ht, hv⟩
 
 open AcraModel.Wire.My in
 /-- **Counterexample (known finding `my-execute-sign-flag`).** "Fields that were not transformed keep their exact
@@ -908,6 +953,25 @@ example : getBindParameters ⟨fun _ b => b, fun _ b => some b⟩
     encodeExecute [0x17, 1, 0, 0, 0, 0, 1, 0, 0, 0] [(0xfd, 0), (6, 0), (0xfc, 0)] [some [65], none, some [66, 67]]
       = [0x17, 1, 0, 0, 0, 0, 1, 0, 0, 0] ++ [2] ++ [1] ++ [0xfd, 0, 6, 0, 0xfc, 0] ++ [1, 65, 2, 66, 67] := by
   constructor <;> rfl
+
+open AcraModel.Wire.My in
+/-- non-vacuity of `rewrite_wellformed_mysql_execute`: the string "A" is changed to "Z", the NULL and the blob "BC" are
+kept – the first parameter becomes a BLOB (252), everything else is byte-identical; the hypotheses hold for this
+execute (no float, no LONG/LONGLONG parameter) -/
+example : rewriteExecute ⟨fun _ b => b, fun _ b => some b⟩ (fun i d => .ok (if i = 0 then [90] else d))
+      ⟨[23, 0, 0, 1], encodeExecute [0x17, 1, 0, 0, 0, 0, 1, 0, 0, 0] [(0xfd, 0), (6, 0), (0xfc, 0)] [some [65], none, some [66, 67]]⟩ 3
+    = .ok (some ⟨[23, 0, 0, 1], encodeExecute [0x17, 1, 0, 0, 0, 0, 1, 0, 0, 0] [(0xfc, 0), (6, 0), (0xfc, 0)] [some [90], none, some [66, 67]]⟩) ∧
+    FloatLaw ⟨fun _ b => b, fun _ b => some b⟩ [(0xfd, 0), (6, 0), (0xfc, 0)] [some [65], none, some [66, 67]] ∧
+    SignFlagsCanonical [(0xfd, 0), (6, 0), (0xfc, 0)] [some [65], none, some [66, 67]] := by
+  refine ⟨by rfl, fun j t fl w v _ _ _ => rfl, ?_⟩
+  intro j t fl sb v h1 _ h3 _
+  exfalso
+  have : j = 0 ∨ j = 1 ∨ j = 2 ∨ 3 ≤ j := by omega
+  rcases this with rfl | rfl | rfl | hj
+  · simp at h1; obtain ⟨rfl, _⟩ := h1; revert h3; decide
+  · simp at h1; obtain ⟨rfl, _⟩ := h1; revert h3; decide
+  · simp at h1; obtain ⟨rfl, _⟩ := h1; revert h3; decide
+  · rw [List.getElem?_eq_none (by simpa using hj)] at h1; cases h1
 
 open AcraModel.Wire.Pg in
 /-- non-vacuity of `rowdescription_rewrite_frame`: two columns, the second re-typed to int4 (OID 23) -/
